@@ -1,0 +1,14 @@
+//go:build verif
+
+// Contracts for package transportoptions (comment-only; compiled only with -tags verif).
+package transportoptions
+
+//@ type TransportOptions
+//@   nonnil options
+
+//@ func (*transportoptions.TransportOptions).SetOptions {C20}
+//@   modifies to.options
+//@ func (*transportoptions.TransportOptions).ClearOptions {C09,C20}
+//@   modifies to.options
+//@ func (*transportoptions.TransportOptions).ApplyOptions {C20}
+//@   opaque -- boundary for callers: the call is logged, nothing is assumed about its result
